@@ -169,6 +169,13 @@ Definition cc_tick (s : mst) : mst := mkM (mdata s) (mheap s) (mhandles s) (mclo
 Definition cc_under_keys (s : mst) (path : str) : list str :=
   sort_by bltb (map fst (filter (fun kv => under path (fst kv)) (mdata s))).
 
+(* Mkdir's write-locked section once the name is known to be absent (= m_mkdir without its
+   final setFileMode) *)
+Definition cc_mkdir_body (s : mst) (name : str) (perm : Z) : mst :=
+  let '(s1, item) := alloc_node s (with_mode (Z.lor mode_dir perm) (new_dir name (mclock s))) in
+  let s2 := set_data s1 (alist_set name item (mdata s1)) in
+  reg s2 item perm.
+
 (* the semantics of the actions; [f] is the frame of the running call *)
 Definition cc_sem (a : cc_aid) (f : cc_frame) (s0 : mst) : cc_out :=
   let s := cc_tick s0 in
@@ -189,10 +196,8 @@ Definition cc_sem (a : cc_aid) (f : cc_frame) (s0 : mst) : cc_out :=
       | Some _ => CcCont s (fr_set_res f (if cc_is_mkdirall o then ROk else RErr (EW KExist))) [CcRel LkW]
       | None =>
         let perm := cc_perm o in
-        let '(s1, item) := alloc_node s (with_mode (Z.lor mode_dir perm) (new_dir name (mclock s))) in
-        let s2 := set_data s1 (alist_set name item (mdata s1)) in
-        let s3 := reg s2 item perm in
-        CcCont s3 (fr_set_z f (Z.lor perm mode_dir)) [CcRel LkW; CcAcq LkR 0%nat; CcAct ASfmLookup]
+        CcCont (cc_mkdir_body s name perm) (fr_set_z f (Z.lor perm mode_dir))
+               [CcRel LkW; CcAcq LkR 0%nat; CcAct ASfmLookup]
       end
   | ASfmLookup =>
       match lookup s name with
@@ -363,6 +368,24 @@ Definition cc_begin (o : op) (slots : list (option nat)) : cc_frame * list cc_in
       end
     | _, _ => (f, [])
     end
+  end.
+
+(* which API method a section belongs to *)
+Definition cc_aid_for (a : cc_aid) (o : op) : bool :=
+  match a, o with
+  | (ACreateT | ACreate), Create _ => true
+  | (AMkdirCheck | AMkdirCreateT | AMkdirCreate), (Mkdir _ _ | MkdirAll _ _) => true
+  | (ASfmLookup | ASfmSet), (Mkdir _ _ | MkdirAll _ _ | OpenFile _ _ _ | Chmod _ _) => true
+  | AOpen, Open _ => true
+  | (AStatLookup | AStatRead), Stat _ => true
+  | (AChmodLookup | AChmodRead), Chmod _ _ => true
+  | (AChtLookup | AChtSet), Chtimes _ _ => true
+  | (AOfLookup | AOfCreateT | AOfCreate | AOfSeekEnd | AOfTrunc), OpenFile _ _ _ => true
+  | (ARemoveT | ARemove), Remove _ => true
+  | (ARenameT | ARename), Rename _ _ => true
+  | (ARaUnregT | ARaUnreg | ARaScan | ARaDelete | ARaNext), RemoveAll _ => true
+  | (AHPre _ | AHBody _), _ => match op_handle_of o with Some _ => true | None => false end
+  | _, _ => false
   end.
 
 Definition cc_leaky (a : cc_aid) : bool := match a with ARaUnreg => true | _ => false end.
@@ -649,7 +672,9 @@ Definition cc_acc (a : cc_aid) : list cc_access :=
       match k with
       | HkRead | HkClose | HkStat | HkName | HkSync => []
       | HkReadAt | HkWrite | HkWriteAt | HkSeek | HkTruncate => [rd FName]     (* error paths build a PathError *)
-      | HkReaddir | HkReaddirnames => [rd FDirFlag; rd FName]
+      | HkReaddir | HkReaddirnames =>
+          (* `dir` is read unlocked; `name` only on the "not a dir" error path, i.e. on a FILE handle *)
+          [rd FDirFlag; mkAcc FName false false false false false]
       end
   | AHBody k =>
       match k with
@@ -725,9 +750,12 @@ Definition cc_kind_aids (k : cc_kind) : list cc_aid :=
   | KXReaddirFile => [AHPre HkReaddir]
   end.
 
-(* true = the table predicts that the two kinds cannot race *)
+Definition cc_kind_wt (k : cc_kind) : bool := match k with KXList | KXReaddirFile => false | _ => true end.
+
+(* true = the table predicts that the two kinds cannot race (kinds outside the class: all accesses) *)
 Definition cc_kinds_norace (prot : cc_aid -> cc_access -> cc_aid -> cc_access -> bool) (k1 k2 : cc_kind) : bool :=
-  forallb (fun a1 => forallb (cc_pair_ok prot true a1) (cc_kind_aids k2)) (cc_kind_aids k1).
+  let wt := cc_kind_wt k1 && cc_kind_wt k2 in
+  forallb (fun a1 => forallb (cc_pair_ok prot wt a1) (cc_kind_aids k2)) (cc_kind_aids k1).
 
 (* ------------------------------------------------------------------ the lock table of the source *)
 (* per Go function: its lock operations in source order, in the format of
